@@ -933,3 +933,41 @@ func ruleStoreKeyKinds(r *core.Run) {
 	}
 	r.Floor("store_key_bindings", nBound, 6)
 }
+
+// ruleStartupWrites (D3-startup): the application constructor (app.New), which
+// runs on every process start, reaches no committed-store write and obtains no
+// sdk.Context outside a block: state must be a function of the committed
+// database and the blocks, not of how often the process was started.
+func ruleStartupWrites(r *core.Run) {
+	fn := r.Func("D3-startup", "app.New")
+	if fn == nil {
+		return
+	}
+	reach := r.P.CG.Reach(fn)
+	nW := 0
+	for _, f := range r.P.SortedFuncs(reach) {
+		for _, e := range r.Eff.Own[f] {
+			if e.IsWrite() {
+				nW++
+				path := r.P.CG.Path(fn, f)
+				r.Violate("D3-startup", core.Key("D3-startup", "write", r.P.Name(f), e.Kind+" "+eff.StoreOwner(e)+":"+e.Prefix), r.P.Pos(e.Instr.Pos()), "the application constructor, which runs at every process start, reaches a write to the committed store ("+e.String()+"): a node that was restarted then holds different state than one that kept running", "call path: "+strings.Join(path, " -> "))
+			}
+		}
+		res := r.Resolver(f)
+		for _, b := range f.Blocks {
+			for _, ins := range b.Instrs {
+				c, ok := ins.(ssa.CallInstruction)
+				if !ok {
+					continue
+				}
+				name, _ := res.CalleeName(c.Common())
+				if strings.HasSuffix(name, "BaseApp.NewUncachedContext") || strings.HasSuffix(name, "BaseApp.NewContext") {
+					nW++
+					r.Violate("D3-startup", core.Key("D3-startup", "context", r.P.Name(f), name), r.P.Pos(c.Pos()), "code reachable from the application constructor obtains an sdk.Context outside any block ("+name+"): store access at process start depends on restarts, not on the block stream")
+				}
+			}
+		}
+	}
+	r.Discharge("D3-startup", "D3-startup|scope", r.P.FuncPos(fn), fmt.Sprintf("%d module functions reachable from app.New; no committed-store write and no out-of-block context among them", len(reach)))
+	r.Count("startup_reachable_funcs", len(reach))
+}
